@@ -140,8 +140,22 @@ package nodeslo
 //@   loop 1 invariant forall j int :: 0 <= j && j < len($range) ==> $range[j].NodeSelector == burstSel($range, j)
 
 //@ spec func sysPatch(ns []configuration.NodeSystemStrategy, i int) *slov1alpha1.SystemStrategy = old(ns[i].SystemStrategy)
+//@ spec func sysPatchBW(ns []configuration.NodeSystemStrategy, i int) resource.Quantity = old(ns[i].SystemStrategy.TotalNetworkBandwidth)
+// cluster level: the cluster bandwidth is the default's, unless the parsed cluster strategy pc sets one (then it is pc's).
+//@ spec func sysClusterBW(c *slov1alpha1.SystemStrategy) bool = c.TotalNetworkBandwidth == spec_defSys().TotalNetworkBandwidth || (exists pc *slov1alpha1.SystemStrategy :: {spec_ovSys(spec_copySys(spec_defSys()), pc)} pc != nil && (allocated(pc) || fresh(pc)) && !pc.TotalNetworkBandwidth.IsZero() && c == spec_ovSys(spec_copySys(spec_defSys()), pc) && c.TotalNetworkBandwidth == pc.TotalNetworkBandwidth)
+//@ spec func bwKept() bool = forall q *slov1alpha1.SystemStrategy :: allocated(q) ==> q.TotalNetworkBandwidth == old(q.TotalNetworkBandwidth)
 //@ spec func sysSel(ns []configuration.NodeSystemStrategy, i int) *metav1.LabelSelector = old(ns[i].NodeSelector)
 //@ spec func sysNode(cluster *slov1alpha1.SystemStrategy, patch *slov1alpha1.SystemStrategy) *slov1alpha1.SystemStrategy = patch != nil ? spec_ovSys(spec_copySys(cluster), patch) : spec_copySys(cluster)
+// mergeSystemStrategy: the opaque overlay ov(base, patch) of util.MergeCfg, except for the one field whose JSON overlay is
+// wrong: a patch that leaves totalNetworkBandwidth unset (zero) inherits base's bandwidth, otherwise the patch's value wins.
+// Frame: only the bandwidth of the overlay object is written (in reality that object is base, the copy the caller made just
+// before the call and does not use afterwards; in the model of MergeCfg it is a new object, see pkg/util).
+//@ func mergeSystemStrategy [C20]
+//@   requires base != nil && patch != nil
+//@   ensures #ov: result == spec_ovSys(base, patch) && result != nil && fresh(result)
+//@   ensures #bandwidth: result.TotalNetworkBandwidth == (old(patch.TotalNetworkBandwidth).IsZero() ? old(base.TotalNetworkBandwidth) : old(patch.TotalNetworkBandwidth))
+//@   modifies spec_ovSys(base, patch).TotalNetworkBandwidth
+
 //@ func calculateSystemConfigMerged [C20]
 //@   requires configMap != nil
 //@   modifies allelems(oldCfg.NodeStrategies)
@@ -151,17 +165,23 @@ package nodeslo
 //@   ensures #keepold: result1 != nil ==> old(present) && result0.ClusterStrategy == oldCfg.ClusterStrategy && arr(result0.NodeStrategies) == arr(oldCfg.NodeStrategies) && off(result0.NodeStrategies) == off(oldCfg.NodeStrategies) && len(result0.NodeStrategies) == len(oldCfg.NodeStrategies)
 //@   ensures #cluster: old(present) && result1 == nil ==> result0.ClusterStrategy != nil && (result0.ClusterStrategy == spec_copySys(spec_defSys()) || (exists pc *slov1alpha1.SystemStrategy :: {spec_ovSys(spec_copySys(spec_defSys()), pc)} pc != nil && result0.ClusterStrategy == spec_ovSys(spec_copySys(spec_defSys()), pc)))
 //@   ensures #nodes: old(present) && result1 == nil ==> (forall i int :: 0 <= i && i < len(result0.NodeStrategies) ==> result0.NodeStrategies[i].SystemStrategy == sysNode(result0.ClusterStrategy, sysPatch(result0.NodeStrategies, i)) && result0.NodeStrategies[i].SystemStrategy != nil && result0.NodeStrategies[i].NodeSelector == sysSel(result0.NodeStrategies, i))
-//@   assert before call MergeCfg: typeis($arg0, *slov1alpha1.SystemStrategy) && typeis($arg1, *slov1alpha1.SystemStrategy) && payload($arg1, *slov1alpha1.SystemStrategy) != nil
-//@   assert before call MergeCfg#1: payload($arg0, *slov1alpha1.SystemStrategy) == spec_copySys(spec_defSys())
-//@   loop 1 invariant 0 <= $i && clusterMerged != nil
-//@   loop 1 invariant forall j int :: 0 <= j && j < $i ==> $range[j].SystemStrategy == sysNode(clusterMerged, sysPatch($range, j)) && $range[j].SystemStrategy != nil
+//@   assert before call mergeSystemStrategy: $arg0 != nil && $arg1 != nil
+//@   assert before call mergeSystemStrategy#1: $arg0 == spec_copySys(spec_defSys())
+//@   loop 1 invariant 0 <= $i && clusterMerged != nil && (allocated(clusterMerged) || fresh(clusterMerged))
+//@   loop 1 invariant forall j int :: 0 <= j && j < $i ==> $range[j].SystemStrategy == sysNode(clusterMerged, sysPatch($range, j)) && $range[j].SystemStrategy != nil && (allocated($range[j].SystemStrategy) || fresh($range[j].SystemStrategy))
 //@   loop 1 invariant forall j int :: $i <= j && j < len($range) ==> $range[j].SystemStrategy == sysPatch($range, j)
 //@   loop 1 invariant forall j int :: 0 <= j && j < len($range) ==> $range[j].NodeSelector == sysSel($range, j)
-// Field-level layering of the one field whose overlay semantics is known exactly (see MergeCfg in pkg/util): a node entry
-// that leaves totalNetworkBandwidth unset (zero Quantity) must deliver the cluster-wide value. FAILS: real defect, see report.
-//@   ensures #F_bandwidth: old(present) && result1 == nil ==> (forall i int :: 0 <= i && i < len(result0.NodeStrategies) && (sysPatch(result0.NodeStrategies, i) == nil || sysPatch(result0.NodeStrategies, i).TotalNetworkBandwidth.IsZero()) ==> result0.NodeStrategies[i].SystemStrategy.TotalNetworkBandwidth == result0.ClusterStrategy.TotalNetworkBandwidth)
-//@   loop 1 invariant #F_bandwidth: forall j int :: 0 <= j && j < $i && (sysPatch($range, j) == nil || sysPatch($range, j).TotalNetworkBandwidth.IsZero()) ==> $range[j].SystemStrategy.TotalNetworkBandwidth == clusterMerged.TotalNetworkBandwidth
-
+// Field-level layering of totalNetworkBandwidth (the field MergeCfg alone gets wrong, see mergeSystemStrategy): an entry that
+// leaves it unset (no strategy, or zero Quantity) delivers the value of the next layer: node <- cluster <- default.
+//@   ensures #F_bandwidth: old(present) && result1 == nil ==> (forall i int :: 0 <= i && i < len(result0.NodeStrategies) && (sysPatch(result0.NodeStrategies, i) == nil || sysPatchBW(result0.NodeStrategies, i).IsZero()) ==> result0.NodeStrategies[i].SystemStrategy.TotalNetworkBandwidth == result0.ClusterStrategy.TotalNetworkBandwidth)
+//@   ensures #F_bandwidth_set: old(present) && result1 == nil ==> (forall i int :: 0 <= i && i < len(result0.NodeStrategies) && sysPatch(result0.NodeStrategies, i) != nil && !sysPatchBW(result0.NodeStrategies, i).IsZero() ==> result0.NodeStrategies[i].SystemStrategy.TotalNetworkBandwidth == sysPatchBW(result0.NodeStrategies, i))
+//@   ensures #F_bandwidth_cluster: old(present) && result1 == nil ==> sysClusterBW(result0.ClusterStrategy)
+//@   loop 1 invariant #F_bandwidth_cluster: sysClusterBW(clusterMerged) && (allocated(spec_defSys()) || fresh(spec_defSys()))
+//@   ensures #bwframe: bwKept()
+//@   loop 1 invariant #bwKept: bwKept()
+//@   loop 1 invariant #F_bandwidth: forall j int :: 0 <= j && j < $i && (sysPatch($range, j) == nil || sysPatchBW($range, j).IsZero()) ==> $range[j].SystemStrategy.TotalNetworkBandwidth == clusterMerged.TotalNetworkBandwidth
+//@   loop 1 invariant #F_bandwidth_set: forall j int :: 0 <= j && j < $i && sysPatch($range, j) != nil && !sysPatchBW($range, j).IsZero() ==> $range[j].SystemStrategy.TotalNetworkBandwidth == sysPatchBW($range, j)
+//@   loop 1 invariant #patchAlloc: forall j int :: 0 <= j && j < len($range) && sysPatch($range, j) != nil ==> allocated(sysPatch($range, j))
 
 // ResourceQOS: the built-in default of this section is a new EMPTY strategy object (qosEmpty), not a named constant.
 //@ spec func qosPatch(ns []configuration.NodeResourceQOSStrategy, i int) *slov1alpha1.ResourceQOSStrategy = old(ns[i].ResourceQOSStrategy)
